@@ -31,7 +31,7 @@ func ruleErrorIffDiagnostic(c *Ctx, r *Report, rule string) {
 	c.ownership(r, rule, "parser", "hadError", map[string]string{"parser.errorAt": "sets the flag", "parse": "reads it to decide the result"}, false)
 	c.ownership(r, rule, "parser", "log", map[string]string{"parser.errorAt": "writes the diagnostic", "parse": "construction"}, false)
 	c.ownership(r, rule, "parser", "panicMode", map[string]string{"parser.errorAt": "enter recovery", "parser.sync": "leave recovery",
-		"decl": "resynchronise at toplevel", "varDecl": "abandon the statement", "blockStmt": "abandon / skip a token", "bindStmt": "abandon the statement"}, false)
+		"decl": "resynchronise at toplevel", "varDecl": "abandon the statement", "blockStmt": "abandon / skip a token", "bindStmt": "abandon the statement"}, true)
 	_, fd := c.find("parser.errorAt")
 	if fd == nil {
 		r.bad(rule, "errorAt", "function not found", "")
